@@ -167,6 +167,11 @@ func (e *bigEnv) bytesOf(v ssa.Value, at ssa.Instruction) *X {
 	case *ssa.Extract:
 		return Op("res"+string(rune('0'+x.Index)), e.bytesOf(x.Tuple, at))
 	case *ssa.Slice:
+		if x.Low == nil && x.High != nil {
+			if hk, isC := constInt(x.High); isC && hk == 0 {
+				return Op("concat") // zero-length prefix of a fresh buffer
+			}
+		}
 		// make([]byte, CONST) is lowered to a slice of a fresh array: same treatment as MakeSlice
 		if al, ok := x.X.(*ssa.Alloc); ok && x.Low == nil {
 			if n, ok := staticLen(al.Type()); ok && n > 0 {
